@@ -258,6 +258,20 @@ class Expr2Mixin:
             for i in range(nb.as_long()):
                 r = self.list_append(r, lb.at(z3.IntVal(i)))
             return r
+        na = z3.simplify(la.n)
+        if z3.is_int_value(na) and na.as_long() <= 4 and la.arrs:
+            # short constant prefix (e.g. list.insert(0, x)): patterns stay free of arithmetic
+            c = na.as_long()
+            r = self.fresh_list(ek, 'pre', n=z3.simplify(c + lb.n))
+            for i in range(c):
+                st.assume(*[z3.Select(ra, i) == col for ra, col in zip(r.arrs, la.at(z3.IntVal(i)).cols())])
+            k = z3.Int(fresh_name('pk'))
+            e1 = [z3.Select(ra, k) == z3.Select(b, lb.off + k - c) for ra, b in zip(r.arrs, lb.arrs)]
+            st.assume(z3.ForAll([k], z3.Implies(z3.And(c <= k, k < c + lb.n), z3.And(*e1)), patterns=[z3.Select(r.arrs[0], k)]))
+            if z3.is_int_value(z3.simplify(lb.off)) and z3.simplify(lb.off).as_long() == 0:
+                e2 = [z3.Select(ra, k + c) == z3.Select(b, k) for ra, b in zip(r.arrs, lb.arrs)]
+                st.assume(z3.ForAll([k], z3.Implies(z3.And(0 <= k, k < lb.n), z3.And(*e2)), patterns=[z3.Select(lb.arrs[0], k)]))
+            return r
         r = self.fresh_list(ek, 'cat', n=z3.simplify(la.n + lb.n))
         k = z3.Int(fresh_name('ck'))
         if r.arrs:
